@@ -43,6 +43,29 @@ pub struct CompPlan {
     /// instruction): `add_local` of a type (true) or `add_global` of an i32 constant (false, value)
     #[serde(default)]
     pub extras: Vec<(u32, u32, u32, bool, crate::ins::VT, i32)>,
+    /// made before any iterator exists, through the component-level entry points on one side
+    /// (`FunctionBuilder::finish_component`, `Component::add_globals`) and the module-level ones on
+    /// the other: (module in component order, build a function (true) / add a global (false),
+    /// fingerprint or value, signature selector)
+    #[serde(default)]
+    pub pre: Vec<(u32, bool, i64, u8)>,
+}
+
+fn pre_builder<'a>(magic: i64, sig: u8) -> wirm::ir::function::FunctionBuilder<'a> {
+    use wirm::ir::types::DataType as D;
+    use wirm::opcode::Opcode;
+    let (p, r): (Vec<D>, Vec<D>) = match sig % 3 {
+        0 => (vec![], vec![]),
+        1 => (vec![D::I32], vec![D::I32]),
+        _ => (vec![D::I32, D::I64], vec![]),
+    };
+    let mut fb = wirm::ir::function::FunctionBuilder::new(&p, &r);
+    fb.i64_const(magic);
+    fb.drop();
+    if sig % 3 == 1 {
+        fb.i32_const(7);
+    }
+    fb
 }
 
 fn one() -> u8 {
@@ -204,6 +227,12 @@ pub fn gen_c26(run_seed: u64) -> Result<Scenario, String> {
             plan.extras.push((k as u32, *func, at, rng.chance(2, 3), ty, rng.below(1000) as i32));
         }
     }
+    for _ in 0..rng.below(3) {
+        let k = rng.below(order.len()) as u32;
+        let build = rng.chance(1, 2);
+        let v = if build { st.func_magic() } else { rng.below(100_000) as i64 };
+        plan.pre.push((k, build, v, rng.below(3) as u8));
+    }
     plan.finish = *rng.pick(&[0u8, 1, 1, 2, 2, 2, 3]);
     let hash_seed = rng.next();
     Ok(Scenario {
@@ -331,15 +360,31 @@ pub fn judge_c26(sc: &Scenario) -> (Judged, RunResult) {
     // ---------------- twin: per-module iterators
     let mut twin_traj: Vec<CVisit> = vec![];
     let mut twin_bytes: Vec<Result<Vec<u8>, PanicInfo>> = vec![];
+    let mut pre_ids_twin: Vec<Option<u32>> = vec![];
     for (k, b) in mod_bytes.iter().enumerate() {
         let mut module = match Module::parse(b, false) {
             Ok(m) => m,
             Err(e) => return herr(format!("library refused generated module: {e}")),
         };
         let skip: Vec<FunctionID> = skip_of(k as u32).iter().map(|f| FunctionID(*f)).collect();
+        for (pk, build, v, sig) in &plan.pre {
+            if *pk as usize == k {
+                let r = guarded(|| {
+                    if *build {
+                        *pre_builder(*v, *sig).finish_module(&mut module)
+                    } else {
+                        *module.add_global(ConstE::I32(*v as i32).to_init(), wirm::ir::types::DataType::I32, false, false)
+                    }
+                });
+                match r {
+                    Ok(id) => pre_ids_twin.push(Some(id)),
+                    Err(_) => pre_ids_twin.push(None),
+                }
+            }
+        }
         let has_visit = {
             let m = &plan.modules[order[k] as usize];
-            (m.num_imp_funcs()..m.num_funcs()).any(|f| !skip.contains(&FunctionID(f)))
+            (m.num_imp_funcs()..m.num_funcs()).any(|f| !skip.contains(&FunctionID(f))) || plan.pre.iter().any(|p| p.0 as usize == k && p.1)
         };
         let r = guarded(|| {
             let mut traj: Vec<CVisit> = vec![];
@@ -412,6 +457,31 @@ pub fn judge_c26(sc: &Scenario) -> (Judged, RunResult) {
     };
     if comp.modules.len() != order.len() {
         return herr(format!("component has {} modules, expected {}", comp.modules.len(), order.len()));
+    }
+    {
+        // the same pre-ops through the component-level entry points, module by module as on the twin side
+        let mut pre_ids_comp: Vec<Option<u32>> = vec![];
+        for k in 0..order.len() {
+            for (pk, build, v, sig) in &plan.pre {
+                if *pk as usize == k {
+                    let r = guarded(|| {
+                        if *build {
+                            *pre_builder(*v, *sig).finish_component(&mut comp, ModuleID(k as u32))
+                        } else {
+                            *comp.add_globals(crate::exec::make_global(&ConstE::I32(*v as i32), crate::ins::VT::I32, false), k)
+                        }
+                    });
+                    pre_ids_comp.push(r.ok());
+                }
+            }
+        }
+        if pre_ids_comp != pre_ids_twin {
+            owned.push(Mismatch::new(
+                "comp_vs_module_bytes",
+                "pre_op_id",
+                format!("IDs returned by finish_component / add_globals {:?} differ from finish_module / add_global {:?} (plan {:?})", pre_ids_comp, pre_ids_twin, plan.pre),
+            ));
+        }
     }
     let mut skip_map: StdHashMap<ModuleID, Vec<FunctionID>> = StdHashMap::new();
     for (k, s) in &plan.skip {
